@@ -21,9 +21,9 @@ CONSTANTS Cat,   \* unit id -> [dim, mag, origin]  (extracted from the working t
 (* Rational exponents <<n,d>>, d > 0, lowest terms                          *)
 (***************************************************************************)
 Abs(x) == IF x < 0 THEN -x ELSE x
-RECURSIVE Gcd(_,_)
-Gcd(a,b) == IF b = 0 THEN a ELSE Gcd(b, a % b)
-RNorm(n,d) == LET g == Gcd(Abs(n), d) IN IF n = 0 THEN <<0,1>> ELSE <<n \div g, d \div g>>
+RECURSIVE GcdN(_,_)
+GcdN(a,b) == IF b = 0 THEN a ELSE GcdN(b, a % b)
+RNorm(n,d) == LET g == GcdN(Abs(n), d) IN IF n = 0 THEN <<0,1>> ELSE <<n \div g, d \div g>>
 RAdd(p,q) == RNorm(p[1]*q[2] + q[1]*p[2], p[2]*q[2])
 RMul(p,q) == RNorm(p[1]*q[1], p[2]*q[2])
 RLess(p,q) == p[1]*q[2] < q[1]*p[2]
